@@ -56,7 +56,7 @@ def generate(rnd, tier):
     cg = rt.canon(g)
     md = rt.min_depths(cg)
     start = None
-    if chance(rnd, 0.12):
+    if chance(rnd, 0.2):
         # requested start symbol: the constraint is generated over the sub-grammar reachable from it
         # (ISLaSolver deletes the unreachable rest and rejects constraints that mention it)
         cands = [k for k in g if k != "<start>" and rt.reach(cg)[k]]
@@ -66,7 +66,7 @@ def generate(rnd, tier):
     cgr = rt.canon(gg_)
     trees = [gen.tree(rnd, cgr, "<start>", rnd.randint(2, 6), rt.min_depths(cgr), bias=0.8) for _ in range(4)]
     lits = fml.sample_lits(cgr, trees)
-    tname, f = solvergen.template(rnd, cgr, lits, name if not start else None)
+    tname, f = solvergen.template(rnd, cgr, lits, name if not start else None, prefer=start)
     st = solvergen.settings(rnd)
     return {"grammar": g, "gname": name, "template": tname, "formula": f, "settings": st, "start_symbol": start,
             "n": rnd.randint(2, MAX_SOLUTIONS), "rseed": rnd.randint(0, 10 ** 6)}
